@@ -351,6 +351,8 @@ def exhaustive_shard(item: dict[str, Any]) -> Collector:
                     if count % item["parts"] != item["part"]:
                         continue
                     case = base_case(n, method, options, maxit)
+                    if method == "cobyla":  # (the plug-in does not hand variable bounds to COBYLA: without them the constraints get through)
+                        case["lb"], case["ub"] = [-np.inf] * n, [np.inf] * n
                     case["spelling"] = SPELLINGS[count % len(SPELLINGS)]
                     case["max_functions"] = (None, 1000)[(count // len(SPELLINGS)) % 2]
                     case["parallel"] = count % 3 != 0
